@@ -73,7 +73,7 @@ ENTRIES = [
  ("C09-F7", "opt-cycle", ["rustc-infinite", "front-end-rustc-fail"], r"\?",
   "a type that contains itself through `?` is emitted as Option<T> without Box. Reproduce: `" + W +
   "type T (next: ?T)\\nmethod Foo(t: T) -> ()` -> rustc E0072 `recursive type `T` has infinite size`"),
- ("C09-F8", "err-fn-shadow", ["rustc-ambiguous", "front-end-rustc-fail"], r"\berror\s+(S[Tt][Rr][Uu][Cc][Tt]|Struct|MethodNotFound|InvalidParameter)\b",
+ ("C09-F8", "err-fn-shadow", ["rustc-ambiguous", "front-end-rustc-fail"], r"\berror\s+(?i:struct|methodnotfound|invalidparameter)\b",
   "an error named Struct or MethodNotFound (or InvalidParameter when some method has parameters) gives VarlinkCallError a fn "
   "reply_struct / reply_method_not_found / reply_invalid_parameter that is ambiguous with the CallTrait method the emitted code calls "
   "(org.varlink.service.varlink itself is such a definition). Reproduce: `" + W + "method Foo() -> ()\\nerror MethodNotFound ()` -> rustc E0034 `multiple applicable items in scope`"),
@@ -90,16 +90,22 @@ j = json.load(open(p))
 ids = {e.get("id") for e in j}
 changed = False
 for (fid, cls, outcomes, rx, what) in ENTRIES:
+    entry = {"property": "C09", "id": fid, "status": "finding", "matcher": "gen-class",
+             "params": {"class": cls, "outcomes": outcomes, "idl_regex": rx},
+             "what": what + " [not fixable in /repo without changing the pinned golden output of test_generate or the public naming scheme]"}
     if fid in ids:
+        # this suite's own entries are kept up to date (entries of other suites are never touched)
+        for k, e in enumerate(j):
+            if e.get("id") == fid and e.get("matcher") == "gen-class" and e != entry:
+                j[k] = entry
+                changed = True
         continue
-    j.append({"property": "C09", "id": fid, "status": "finding", "matcher": "gen-class",
-              "params": {"class": cls, "outcomes": outcomes, "idl_regex": rx},
-              "what": what + " [not fixable in /repo without changing the pinned golden output of test_generate or the public naming scheme]"})
+    j.append(entry)
     changed = True
 if changed:
     json.dump(j, open(p, "w"), indent=1)
 
-IMPORTS = ["VarlinkVerif.Model.Gen", "VarlinkVerif.Model.GenEmit", "VarlinkVerif.Lemmas.Gen", "VarlinkVerif.Lemmas.GenEmit", "VarlinkVerif.Lemmas.GenPred", "VarlinkVerif.Lemmas.GenLoop",
+IMPORTS = ["VarlinkVerif.Model.Gen", "VarlinkVerif.Model.GenEmit", "VarlinkVerif.Lemmas.Gen", "VarlinkVerif.Lemmas.GenEmit", "VarlinkVerif.Lemmas.GenPred", "VarlinkVerif.Lemmas.GenLoop", "VarlinkVerif.Lemmas.GenPaths",
            "VarlinkVerif.Pred.Gen", "VarlinkVerif.Props.C08", "VarlinkVerif.Props.C09"]
 p = os.path.join(root, "lean", "VarlinkVerif.lean")
 s = open(p).read()
